@@ -140,7 +140,7 @@ fn gen_cfg(name: &str) -> Option<(generic::GenCfg, &'static str)> {
         }
         "c07" => {
             c.name = "c07";
-            c.kinds = vec![Socket, SocketDirect, Open, OpenDirect, OpenExtract, OpenDirectExtract, Accept, AcceptNoAddr, MultishotAccept, Pipe, PipeDirect, ToDirect, ToFile, Close, Read, Write, SyncAll];
+            c.kinds = vec![Socket, SocketDirect, Open, OpenDirect, OpenExtract, OpenDirectExtract, Accept, AcceptNoAddr, MultishotAccept, AcceptDirect, MultishotAcceptDirect, Pipe, PipeDirect, ToDirect, ToFile, Close, Read, Write, SyncAll];
             c.sq_sizes = vec![1, 2, 2, 4];
             c.w_drop = 140;
             c.w_drop_results = 120;
